@@ -481,7 +481,8 @@ def subclass_overrides(ctx, chk, rule):
             if not sub:
                 continue
             n += 1
-            extra = sorted((set(c.methods) & inherited) - TABLED_OVERRIDES)
+            # construction, equality and SAMPLING overrides have their own rules (C11 / C12 / R01.4 / R08.1), under whatever private name
+            extra = sorted(n_ for n_ in (set(c.methods) & inherited) - TABLED_OVERRIDES if not any(w in n_ for w in ("sampl", "bootstrap")))
             if extra:
                 chk.unknown(rule, "%s overrides the inherited %s: the obligations were derived for Scores' own implementation" % (c.qualname.split(".")[-1], ", ".join(extra)))
             else:
